@@ -15,6 +15,52 @@ REPO = os.environ.get("FLEXLINT_REPO", "/repo")
 SRC_PKG = "flexstack"
 
 
+def normalise(tree: ast.AST) -> ast.AST:
+    """Canonicalising pre-pass (copy propagation of single-use temporaries), applied to every module before analysis:
+
+        t = EXPR            ->        return EXPR
+        return t
+
+    when `t` is a plain local (not global / nonlocal, not referenced from a nested scope): the path ends at the return, so
+    the binding cannot be observed.  Behaviour is unchanged; the rules then see the
+    returned expression whether or not the author routed it through a local."""
+    for fn in ast.walk(tree):
+        if not isinstance(fn, (ast.FunctionDef, ast.AsyncFunctionDef)):
+            continue
+        # names that may be observed outside the straight-line path: declared global / nonlocal, or referenced from a nested scope
+        shared: set = set()
+        for n in ast.walk(fn):
+            if isinstance(n, (ast.Global, ast.Nonlocal)):
+                shared.update(n.names)
+            elif n is not fn and isinstance(n, (ast.FunctionDef, ast.AsyncFunctionDef, ast.Lambda, ast.ClassDef, ast.GeneratorExp,
+                                                 ast.ListComp, ast.SetComp, ast.DictComp)):
+                for x in ast.walk(n):
+                    if isinstance(x, ast.Name):
+                        shared.add(x.id)
+        for blk in ast.walk(fn):
+            for fld in ("body", "orelse", "finalbody"):
+                lst = getattr(blk, fld, None)
+                if not (isinstance(lst, list) and len(lst) >= 2 and isinstance(lst[0], ast.stmt)):
+                    continue
+                i = 0
+                while i + 1 < len(lst):
+                    a, r = lst[i], lst[i + 1]
+                    tgt = None
+                    if isinstance(a, ast.Assign) and len(a.targets) == 1 and isinstance(a.targets[0], ast.Name):
+                        tgt = a.targets[0].id
+                    elif isinstance(a, ast.AnnAssign) and a.value is not None and isinstance(a.target, ast.Name):
+                        tgt = a.target.id
+                    if tgt is not None and isinstance(r, ast.Return) and isinstance(r.value, ast.Name) and r.value.id == tgt \
+                            and tgt not in shared:
+                        new = ast.Return(value=a.value)
+                        ast.copy_location(new, a)
+                        new.end_lineno, new.end_col_offset = getattr(r, "end_lineno", None), getattr(r, "end_col_offset", None)
+                        lst[i:i + 2] = [new]
+                        continue
+                    i += 1
+    return tree
+
+
 class AnalysisError(Exception):
     """The analysis could not be carried out (vanished anchor, unknown shape, floor not met)."""
 
@@ -188,6 +234,7 @@ class Program:
                     tree = ast.parse(src, filename=p)
                 except SyntaxError as e:
                     raise AnalysisError(f"syntax error in {rel}: {e}")
+                tree = normalise(tree)
                 m = ModuleInfo(modname, p, rel, tree, src)
                 self.modules[modname] = m
         self.digest = h.hexdigest()[:16]
@@ -205,6 +252,56 @@ class Program:
                         self.examples[f] = ModuleInfo("examples." + f[:-3], p, os.path.relpath(p, self.repo), tree, src)
         for m in list(self.modules.values()) + list(self.examples.values()):
             self._index_module(m)
+        self._normalise_calls()
+
+    def _normalise_calls(self) -> None:
+        """Second canonicalising pass (after indexing, before any flow is built): a call that passes arguments to a
+        repository FUNCTION or METHOD by keyword is rewritten to the positional form when that is unambiguous - every in-src
+        target agrees on the parameter order and the keywords fill a gap-free prefix of the parameters.  `f(x, b=y)` and
+        `f(x, y)` then look the same to every rule.  Constructor calls (dataclasses) keep their keywords."""
+        n_rewritten = 0
+        for fi in list(self.funcs.values()):
+            try:
+                calls = self.calls_in(fi)
+            except Exception:  # pragma: no cover
+                continue
+            for c in calls:
+                if not c.keywords or any(k.arg is None for k in c.keywords) or any(isinstance(a, ast.Starred) for a in c.args):
+                    continue
+                try:
+                    tg = self.call_targets(fi, c, count=False)
+                except Exception:
+                    continue
+                if not tg or not all(isinstance(t, FuncInfo) for t in tg):
+                    continue
+                orders = set()
+                for t in tg:
+                    a = t.node.args
+                    if a.vararg or a.kwarg or a.kwonlyargs:
+                        orders.add(None)
+                        continue
+                    params = list(t.params)
+                    bound = t.kind in ("method", "classmethod", "property") and isinstance(c.func, ast.Attribute)
+                    if t.kind in ("method", "classmethod") and isinstance(c.func, ast.Name):
+                        bound = False          # plain-name call of a method object: leave alone
+                        orders.add(None)
+                        continue
+                    orders.add(tuple(params[1:] if bound else params))
+                if len(orders) != 1 or None in orders:
+                    continue
+                params = list(next(iter(orders)))
+                kw = {k.arg: k.value for k in c.keywords}
+                need = params[len(c.args):len(c.args) + len(kw)]
+                if len(need) != len(kw) or set(need) != set(kw):
+                    continue            # unknown keyword or a gap that relies on a default
+                c.args = list(c.args) + [kw[p_] for p_ in need]
+                c.keywords = []
+                n_rewritten += 1
+        self.calls_normalised = n_rewritten
+        # type / resolution caches filled while resolving calls above were computed before every module-level fact was final
+        # for the callers' callers: drop them, they are rebuilt on demand
+        for k in [k for k in self.__dict__ if k.endswith("_cache")]:
+            del self.__dict__[k]
 
     def _index_module(self, m: ModuleInfo) -> None:
         pkg = m.name.rsplit(".", 1)[0] if "." in m.name else ""
